@@ -3,7 +3,7 @@
 import json
 
 from dxv import sut, spec, gen, roundtrip
-from dxv.engine import HypCheck
+from dxv.engine import HypCheck, EnumCheck
 
 ASSUMPTIONS = [
     'metadata may be rendered with or without ASCII escaping (the '
@@ -169,8 +169,38 @@ def run_case(program, st):
         st.violation('validator:' + res[0], res[1], program)
 
 
+def boundary_chunks(tier, seed):
+    return list(roundtrip.BOUNDARY_BLOCKS)
+
+
+def run_boundary_chunk(block, st):
+    from dxv.engine import Stats
+    progs = roundtrip.boundary_programs(block)
+
+    for prog in progs:
+        sub = Stats()
+        run_case(prog, sub)
+
+        for kind, b in sub.buckets.items():
+            st.violation(kind, b['detail'], prog)
+
+    st.bulk(len(progs), len(progs),
+            sample={'block': block, 'programs': len(progs)})
+
+
 def checks():
     return [
+        EnumCheck(
+            'size-boundaries', boundary_chunks, run_boundary_chunk,
+            run_case=run_case,
+            rule='deterministic programs whose first content line ends at '
+                 'every offset -2..+1 around 96 B, 1 KiB, 4 KiB, 8 KiB and '
+                 '64 KiB (unix/dos, declared or detected, indent 0/4, next '
+                 'line starting with a space or not, utf-8 and utf-16-le; '
+                 'preamble, inheriting preamble, metadata, diff); all '
+                 'non-trivial',
+            bound={'quick': '5 blocks x 4 offsets x 64 variants',
+                   'thorough': 'same'}),
         HypCheck(
             'programs', lambda: gen.programs(), run_case,
             budget={'quick': (16, 220), 'thorough': (16, 12000)},
